@@ -86,28 +86,28 @@ class StubDT:
             def fromisoformat(cls, text):
                 t = real_dt.time.fromisoformat(text)        # the real parser decides
                 if t.tzinfo is not None:
-                    r = symreal_dt.time(0)
+                    r = symdt.time(0)
                     r.tzinfo = t.tzinfo
                     return r
-                return symreal_dt.time(relabel(t.hour), relabel(t.minute), relabel(t.second), relabel(t.microsecond))
+                return symdt.time(relabel(t.hour), relabel(t.minute), relabel(t.second), relabel(t.microsecond))
 
         class datetime(symdt.datetime):
             @staticmethod
             def strptime(text, fmt):
                 d = real_dt.datetime.strptime(text, fmt)
-                return symreal_dt.datetime(1900, 1, 1, relabel(d.hour), relabel(d.minute), relabel(d.second), relabel(d.microsecond))
+                return symdt.datetime(1900, 1, 1, relabel(d.hour), relabel(d.minute), relabel(d.second), relabel(d.microsecond))
 
             @classmethod
             def fromisoformat(cls, text):
                 d = real_dt.datetime.fromisoformat(text)
-                return symreal_dt.datetime(d.year, d.month, d.day, d.hour, d.minute, d.second, d.microsecond)
+                return symdt.datetime(d.year, d.month, d.day, d.hour, d.minute, d.second, d.microsecond)
         self.time, self.date, self.datetime = time, symdt.date, datetime
         self.timezone, self.timedelta = real_dt.timezone, real_dt.timedelta
 
 
 # the stub classes used for isinstance-free comparisons must be the symdt base classes
 def T(h, m=0, s=0, us=0):
-    return symreal_dt.time(h, m, s, us)
+    return symdt.time(h, m, s, us)
 
 
 def us_of(t):
@@ -246,9 +246,9 @@ def scen_datetime(env, nranges):
             na = 5 + env.choose(3, f'r{i}_a_len')
             a, b = dt_fields(env, f'r{i}a', na), dt_fields(env, f'r{i}b', 5)
             ranges.append([a, b])
-            ref.append((symreal_dt.datetime(*a), symreal_dt.datetime(*b)))
+            ref.append((symdt.datetime(*a), symdt.datetime(*b)))
         iv = ti.DateTimeInterval(ranges)
-        p = symreal_dt.datetime(*dt_fields(env, 'probe', 7))
+        p = symdt.datetime(*dt_fields(env, 'probe', 7))
         got = p in iv
         x = dtnum(p)
         exp = False
@@ -439,6 +439,55 @@ GRID = {
 }
 
 
+RUN_TEMPLATES = [
+    (ti.DateTimeInterval, 'Jan 1 2024 10:00 / Feb 1 2024 10:00'),
+    (ti.DateTimeInterval, '2024-03-05 7:30 / 2024-03-06T12:45:10'),
+    (ti.DateTimeInterval, '12. dec 2030 23:59:59 - 2031-january-02 0:00'),
+    (ti.DateInterval, 'Jan 1 - Feb 12'),
+    (ti.DateInterval, '--1224 / --01-06'),
+    (ti.DateInterval, '1.may; 25 Dec'),
+    (ti.TimeInterval, '1:02 - 3:04:05'),
+]
+
+
+def scen_digit_runs(env):
+    """'malformed input is rejected with an error instead of being misread': one extra digit inserted next to a numeral
+    of a valid string (so that a number gets one digit too long - or becomes another valid number).  Either the string is
+    refused, or every maximal run of digits in it is read as ONE number: it shows up as a field of the result.  A run
+    split in two ('12024' read as the year 1202 and the day 4, '110:30' as day 1 and 10:30) is a misreading."""
+    import collections
+    cls, text = RUN_TEMPLATES[env.choose(len(RUN_TEMPLATES), 'template')]
+    positions = [i for i in range(len(text) + 1)
+                 if (i < len(text) and text[i].isdigit()) or (i > 0 and text[i - 1].isdigit())]
+    joins = [i for i in range(1, len(text) - 1) if text[i] == ' ' and text[i - 1].isdigit() and text[i + 1].isdigit()]
+    if joins and env.choose(2, 'mutation'):
+        # a separating blank between two numerals is missing: the two numbers form one run of digits
+        pos = joins[env.choose(len(joins), 'join')]
+        bad = text[:pos] + text[pos + 1:]
+        env.note('numerals-joined')
+    else:
+        pos = positions[env.choose(len(positions), 'position')]
+        digit = env.pick(['1', '0', '9'], 'digit')
+        bad = text[:pos] + digit + text[pos:]
+    try:
+        iv = cls(bad)
+    except ValueError:
+        env.note('extra-digit-refused')
+        env.check('digit-runs', True)
+        return
+    env.note('extra-digit-accepted')
+    fields = collections.Counter()
+    for rng in iv.as_list():
+        for endpoint in rng:
+            fields.update(endpoint)
+    runs = [int(r) for r in re.findall(r'[0-9]+', bad)]
+    # a fraction of a second is stored in microseconds; '--MMDD' holds two numbers in one run
+    def known(r, raw):
+        return fields[r] > 0 or (len(raw) == 4 and cls is ti.DateInterval and fields[int(raw[:2])] and fields[int(raw[2:])])
+    misread = [raw for raw in re.findall(r'[0-9]+', bad) if not known(int(raw), raw)]
+    env.check('digit-runs', not misread, info=lambda: (bad, iv.as_list(), misread))
+
+
 def scen_roundtrip_grid(env, kind):
     """'feeding that form or the string rendering back yields the same interval': one or two ranges whose endpoints the
     solver draws from a grid (equal endpoints included: the whole day / a single date / an empty date-time range),
@@ -538,13 +587,13 @@ def scen_stub_selftest(env):
     ok = True
     for a in vals_t:
         for b in vals_t:
-            ra, rb, sa, sb = real_dt.time(*a), real_dt.time(*b), symreal_dt.time(*a), symreal_dt.time(*b)
+            ra, rb, sa, sb = real_dt.time(*a), real_dt.time(*b), symdt.time(*a), symdt.time(*b)
             ok = ok and (ra < rb) == bool(sa < sb) and (ra <= rb) == bool(sa <= sb) and (ra == rb) == bool(sa == sb) \
                 and (ra > rb) == bool(sa > sb) and (ra >= rb) == bool(sa >= sb)
     vals_d = [(404, 1, 1), (404, 2, 29), (404, 12, 31), (404, 6, 15), (2024, 2, 28)]
     for a in vals_d:
         for b in vals_d:
-            ra, rb, sa, sb = real_dt.date(*a), real_dt.date(*b), symreal_dt.date(*a), symreal_dt.date(*b)
+            ra, rb, sa, sb = real_dt.date(*a), real_dt.date(*b), symdt.date(*a), symdt.date(*b)
             ok = ok and (ra < rb) == bool(sa < sb) and (ra <= rb) == bool(sa <= sb) and (ra == rb) == bool(sa == sb)
     for bad in ((24, 0), (0, 60), (0, 0, 60), (0, 0, 0, 1000000), (-1, 0)):
         for cls in (real_dt.time, symdt.time):
@@ -569,7 +618,7 @@ def scen_stub_selftest(env):
         with Rebind():
             stub_iv = ti.TimeInterval([sp])
             for pt, r_in in zip(vals_t, real_in):
-                ok = ok and r_in == bool(symreal_dt.time(*pt) in stub_iv)
+                ok = ok and r_in == bool(symdt.time(*pt) in stub_iv)
             ok = ok and stub_iv.as_list() == real_list
     env.check('stub-selftest', ok)
 
@@ -580,6 +629,7 @@ def shards(tier):
            {'name': 'sequence lengths', 'scenario': 'scen_seq_lengths'},
            {'name': 'malformed', 'scenario': 'scen_malformed'},
            {'name': 'roundtrip', 'scenario': 'scen_roundtrip'},
+           {'name': 'extra digit next to a numeral', 'scenario': 'scen_digit_runs'},
            {'name': 'roundtrip grid time', 'scenario': 'scen_roundtrip_grid', 'params': {'kind': 'time'}},
            {'name': 'roundtrip grid date', 'scenario': 'scen_roundtrip_grid', 'params': {'kind': 'date'}},
            {'name': 'roundtrip grid datetime', 'scenario': 'scen_roundtrip_grid', 'params': {'kind': 'datetime'}},
